@@ -94,7 +94,10 @@ def analyse(net: Dict[str, Any]) -> Dict[str, Any]:
     cert_cons = {"kind": "none", "v": []} if small else find_cert(ex.T, True)
     cert_flux = {"kind": "none", "v": []} if small else find_cert(ex, True)
     # reaction_order of build_S: labels of reaction nodes; map to ids
+    labels = sorted({str(r) for r in rx} | {str(e["rule"]) for e in net["rx"]})      # strings are ordered here, TLC compares ranks
+    rank = {l: k + 1 for k, l in enumerate(labels)}
     return {"net": net, "sp_order": [str(s) for s in sp], "rx_order": [str(r) for r in rx], "S": Si, "integral": integral,
+            "rx_rank": [rank[str(r)] for r in rx], "rule_rank": [rank[str(e["rule"])] for e in net["rx"]],
             "inc_sp": list(isp), "inc_rx": list(irx), "inc": [[int(v) for v in row] for row in inc.tolist()],
             "rank": int(stoich.stoichiometric_rank(H)),
             "L": [_scaled(L[:, k]) for k in range(L.shape[1])], "R": [_scaled(R[:, k]) for k in range(R.shape[1])],
